@@ -8,7 +8,6 @@ D="$1"; N="$2"; ID="$3"; ON="${4:-$2}"
 P="$D/patch$N.diff"; DEMO="$D/demo${N}_test.go"
 [ -f "$P" ] && [ -f "$DEMO" ] || { echo "missing $P or $DEMO"; exit 3; }
 PKG=url
-if head -12 "$DEMO" | grep -q "canonicalizer/"; then PKG=canonicalizer; fi
 if grep -q "^package canonicalizer" "$DEMO"; then PKG=canonicalizer; fi
 T=$(mktemp -d /tmp/seedconfirm.XXXXXX)
 trap 'rm -rf "$T"' EXIT
